@@ -83,6 +83,8 @@ def run(ctx):
     from . import callsigs as _cs2
     _cs2.scratch_buffer_rule(ctx, 'R20.5')
     from . import callsigs as _cs
+    from . import findings3 as _f3
+    _f3.mutable_defaults(ctx, 'R20.11')
     _cs.general_rules(ctx, 'R20', ['api.ParquetFile', 'writer.make_part_file', 'writer.make_row_group', 'core.read_row_group', 'core.read_row_group_arrays', 'writer.write_common_metadata', 'writer.consolidate_categories', 'util.metadata_from_many', 'compression'])
 
 
@@ -260,8 +262,14 @@ def r202(ctx):
     gs = api.func('ParquetFile.__getstate__')
     ret = [s for s in gs.body if isinstance(s, ast.Return)]
     keys = sorted(norm(k) for k in ret[0].value.keys) if ret and isinstance(ret[0].value, ast.Dict) else []
-    ctx.ob('R20.2', 'api.__getstate__:pickled-state-is-metadata-only', keys == sorted(
-        ["'fn'", "'open'", "'fmd'", "'pandas_nulls'", "'_base_dtype'", "'tz'"]), str(keys), api.loc(gs))
+    # (the zone map may travel with the state or be left out: _dtypes computes it again whenever it is None;
+    # without that recomputation it must travel)
+    dt = api.func('ParquetFile._dtypes')
+    tz_recomputed = any(isinstance(x, ast.If) and 'self.tz is None' in norm(x.test) and any(
+        isinstance(y, ast.Assign) and norm(y.targets[0]) == 'self.tz' for y in ast.walk(x)) for x in dt.body)
+    need = ["'fn'", "'open'", "'fmd'", "'pandas_nulls'", "'_base_dtype'"]
+    ctx.ob('R20.2', 'api.__getstate__:pickled-state-is-metadata-only',
+           keys == sorted(need + ["'tz'"]) or (tz_recomputed and keys == sorted(need)), str(keys), api.loc(gs))
 
 
 def r203(ctx):
